@@ -94,7 +94,9 @@ package resolve
 //@   ensures result == depsOf(recv)
 //@   pure
 //@   trusted plan accessor
+//@ spec kindOf(f Fetch) int
 //@ func Fetch.FetchKind
+//@   ensures result == kindOf(recv)
 //@   pure
 //@   trusted plan accessor
 //@ func Fetch.FetchInfo
@@ -192,6 +194,11 @@ package resolve
 //@   let authRej = res.authorizationRejected
 //@   let rateRej = res.rateLimitRejected
 //@   ensures {a.fetch.that.delivered.nothing.blocks.its.dependents} result == nil && count(merged) == old(count(merged)) && count(dataSet) == old(count(dataSet)) && !g_benign && !skipped && !authRej && !rateRej && !(res.batchStats != nil && g_batchLen == len(res.batchStats)) && fetchItem != nil && fetchItem.Fetch != nil && depsOf(fetchItem.Fetch) != nil ==> l.erroredFetchIDs != nil && has(l.erroredFetchIDs, depsOf(fetchItem.Fetch).FetchID)
+//@   let multi0 = res.multi
+//@   assumes {plan.an.entity.fetch.selects.the.entities.list.or.its.only.item} res.multi == nil && fetchItem != nil && fetchItem.Fetch != nil && res.postProcessing.SelectResponseDataPath != nil ==> (kindOf(fetchItem.Fetch) == FetchKindEntity ==> len(res.postProcessing.SelectResponseDataPath) >= 2 && res.postProcessing.SelectResponseDataPath[len(res.postProcessing.SelectResponseDataPath)-2] == "_entities") && (kindOf(fetchItem.Fetch) == FetchKindEntityBatch ==> len(res.postProcessing.SelectResponseDataPath) >= 1 && res.postProcessing.SelectResponseDataPath[len(res.postProcessing.SelectResponseDataPath)-1] == "_entities")
+//@   ghost var g_lastKey intarray = zeroarray
+//@   at call Value.Get: ghost g_lastKey = ite(result != nil && len(arg1) > 0, store(g_lastKey, result, arg1[len(arg1)-1]), g_lastKey)
+//@   at call getTaintedIndices: assert {error.paths.are.resolved.against.the.entities.list} multi0 == nil && arg2 != nil && fetchItem != nil && fetchItem.Fetch != nil && (kindOf(fetchItem.Fetch) == FetchKindEntity || kindOf(fetchItem.Fetch) == FetchKindEntityBatch) ==> g_lastKey[arg2] == "_entities"
 //@   modifies *, count(merged), count(dataSet), count(errorRendered), count(errorsMerged), count(arrayAppended), count(jsonSet)
 //@   ghost var g_batchLen int = 0 - 1
 //@   at call Value.GetArray: ghost g_batchLen = len(result)
